@@ -863,6 +863,18 @@ class Frame(object):
         body = self.block(node.body, st)
         outs = []
         normal = [s for s, status in body if status in ('normal', 'continue', 'break')]
+        statuses = [status for s, status in body if status in ('normal', 'continue', 'break')]
+        nfacts = len(before.facts)
+
+        def skip_filter(contributes):
+            """Paths of one iteration that add nothing to an accumulator only skip the element: `if c: continue` before the
+            append, a guarding `if`, and a filtered comprehension all denote EACH(v in coll if <cond>; delta).  Returns the
+            ' if <cond>' suffix for the paths that do contribute, '' when every path does, None when it cannot be expressed."""
+            if all(contributes):
+                return ''
+            if any(stt == 'break' for stt, c in zip(statuses, contributes) if not c):
+                return None                       # leaving the loop is not a filter
+            return path_filter([s.facts[nfacts:] for s, c in zip(normal, contributes) if c])
         for s, status in body:
             if status in ('return', 'raise'):
                 s.facts.append(('in loop over %s' % colltext, True, None))
@@ -888,13 +900,35 @@ class Frame(object):
                         uniq.append(d)
                 if uniq == [[]]:
                     continue
+                filt = ''
+                if len(uniq) == 2 and [] in uniq:
+                    filt = skip_filter([d != [] for d in deltas])
+                    if filt is None:
+                        filt = ''
+                    else:
+                        uniq = [d for d in uniq if d != []]
                 inner = uniq[0] if len(uniq) == 1 else [('ALT', uniq)]
                 cls = type(old)
                 if cls is Bytes:
-                    base.env[name] = Bytes(old.items + [('EACH', vartext, colltext, inner)])
+                    base.env[name] = Bytes(old.items + [('EACH', vartext, colltext + filt, inner)])
                 else:
-                    base.env[name] = Hasher(old.alg, old.items + [('EACH', vartext, colltext, inner)])
+                    base.env[name] = Hasher(old.alg, old.items + [('EACH', vartext, colltext + filt, inner)])
             elif isinstance(old, ListV):
+                grown = []
+                for s in normal:
+                    new = s.env.get(name)
+                    grown.append(new.elems[len(old.elems):] if isinstance(new, ListV) and len(new.elems) > len(old.elems) else [])
+                keys = [[render(e) for e in g] for g in grown]
+                uniq = []
+                for k in keys:
+                    if k not in uniq:
+                        uniq.append(k)
+                if len(uniq) == 2 and [] in uniq:
+                    filt = skip_filter([k != [] for k in keys])
+                    if filt is not None:
+                        g = next(g for g in grown if g)
+                        base.env[name] = ListV(old.elems + [EachV(vartext, colltext + filt, g)], old.kind)
+                        continue
                 new = base.env.get(name)
                 if isinstance(new, ListV) and len(new.elems) > len(old.elems):
                     base.env[name] = ListV(old.elems + [EachV(vartext, colltext, new.elems[len(old.elems):])], old.kind)
@@ -905,8 +939,15 @@ class Frame(object):
             if y not in ys:
                 ys.append(y)
         if ys and ys != [[]]:
+            filt = ''
+            if len(ys) == 2 and [] in ys:
+                filt = skip_filter([bool(s.yields[nyield:]) for s in normal])
+                if filt is None:
+                    filt = ''
+                else:
+                    ys = [y for y in ys if y]
             inner = ' '.join(ys[0]) if len(ys) == 1 else 'ALT(%s)' % ' | '.join(' '.join(y) for y in ys)
-            base.yields = base.yields[:nyield] + [Sym('EACH(%s in %s;%s)' % (vartext, colltext, inner))]
+            base.yields = base.yields[:nyield] + [Sym('EACH(%s in %s;%s)' % (vartext, colltext + filt, inner))]
         # calls / stores of all normal paths are kept (union, order of first path first)
         for s in normal[1:]:
             for c in s.calls:
@@ -1556,6 +1597,10 @@ class Frame(object):
                     recv.elems.extend(args[0].elems)
                     record(ftext)
                     return Const(None)
+                if meth == 'extend' and len(args) == 1 and isinstance(args[0], EachV):
+                    recv.elems.append(args[0])          # a summarised run of elements (spliced by join / as_items)
+                    record(ftext)
+                    return Const(None)
             if isinstance(recv, Bytes) and meth == 'join' and len(args) == 1:
                 record(ftext)
                 if isinstance(args[0], ListV) and not merge_consts(recv.items):
@@ -1834,6 +1879,55 @@ class Frame(object):
         if all(isinstance(v, (Bytes, Const)) for v in vals) and any(isinstance(v, Bytes) for v in vals):
             return Bytes([('ALT', [as_items(v) for v in vals])])
         return Sym('ALT(%s)' % ' | '.join(texts))
+
+
+NEGOPS = {'==': '!=', '!=': '==', 'in': 'not in', 'not in': 'in', 'is': 'is not', 'is not': 'is'}
+
+
+def _fact_literal(f):
+    """Text of one path decision (cond_text, value, skeleton) as a condition that holds on the path."""
+    t, val, sk = f
+    if val:
+        return t
+    if sk is not None and sk[0] == 'not' and t.startswith('not '):
+        return t[4:]
+    if sk is not None and sk[0] == 'cmp' and sk[1] in NEGOPS and t == '(%s %s %s)' % (sk[2], sk[1], sk[3]):
+        return '(%s %s %s)' % (sk[2], NEGOPS[sk[1]], sk[3])
+    return 'not %s' % t
+
+
+def path_filter(factlists):
+    """' if c1 if c2' for the disjunction of the given paths (each a list of decisions); None when a decision is not a condition
+    of the element (exception edges).  Paths that differ in the value of one decision only are merged first."""
+    paths = []
+    for fl in factlists:
+        if any(len(f) < 3 or f[2] is None for f in fl):
+            return None
+        p = [(f[0], bool(f[1]), _fact_literal(f)) for f in fl]
+        if p not in paths:
+            paths.append(p)
+    changed = True
+    while changed and len(paths) > 1:
+        changed = False
+        for i in range(len(paths)):
+            for j in range(i + 1, len(paths)):
+                a, b = paths[i], paths[j]
+                if len(a) == len(b):
+                    diff = [k for k in range(len(a)) if a[k][:2] != b[k][:2]]
+                    if len(diff) == 1 and a[diff[0]][0] == b[diff[0]][0]:
+                        merged = a[:diff[0]] + a[diff[0] + 1:]
+                        paths = [p for k, p in enumerate(paths) if k not in (i, j)]
+                        if merged not in paths:
+                            paths.append(merged)
+                        changed = True
+                        break
+            if changed:
+                break
+    if any(not p for p in paths):
+        return ''
+    if len(paths) == 1:
+        return ''.join(' if ' + lit for _, _, lit in paths[0])
+    return ' if (%s)' % ' or '.join('(%s)' % ' and '.join(lit for _, _, lit in p) if len(p) > 1 else p[0][2] for p in paths)
 
 
 def _preorder(node):
